@@ -1,4 +1,10 @@
 package main
 
 // extraEngines: engines that are not network-simulation profiles.
-func extraEngines(prop string) []Engine { return nil }
+func extraEngines(prop string) []Engine {
+	switch prop {
+	case "C03", "C04":
+		return []Engine{&byzEngine{prop: prop}}
+	}
+	return nil
+}
